@@ -6,7 +6,7 @@ result as "final_run" in seeded/<id>/meta.json. Prints one line per change."""
 import json, os, re, subprocess, sys
 from concurrent.futures import ThreadPoolExecutor
 ROOT = os.path.dirname(os.path.dirname(os.path.abspath(__file__)))
-EXTRA = {"C04-w3-m2": ["C03"], "C06-w3-m1": ["C18"], "C13-w3-m2": ["C17"], "C06-w4-m1": ["C05"], "C06-w4-m2": ["C13"], "C13-w4-m2": ["C17"], "C03-w4-m2": ["C12"], "C04-w5-m2": ["C13"], "C05-w5-m1": ["C06"], "C05-w5-m2": ["C06"], "C13-w5-m2": ["C03"], "C04-w2-m1": ["C03"], "C05-w6-m2": ["C06"], "C06-w6-m1": ["C04"], "C13-w6-m1": ["C04"], "C15-w6-m2": ["C14"], "C20-w6-m1": ["C04"], "C20-w6-m2": ["C03"], "C13-w7-m2": ["C03"], "C15-w7-m2": ["C14"], "C18-w7-m1": ["C11"], "C04-w8-m2": ["C19"], "C05-w8-m1": ["C06"], "C13-w8-m2": ["C17"], "C11-w8-m2": ["C06"]}
+EXTRA = {"C04-w3-m2": ["C03"], "C06-w3-m1": ["C18"], "C13-w3-m2": ["C17"], "C06-w4-m1": ["C05"], "C06-w4-m2": ["C13"], "C13-w4-m2": ["C17"], "C03-w4-m2": ["C12"], "C04-w5-m2": ["C13"], "C05-w5-m1": ["C06"], "C05-w5-m2": ["C06"], "C13-w5-m2": ["C03"], "C04-w2-m1": ["C03"], "C05-w6-m2": ["C06"], "C06-w6-m1": ["C04"], "C13-w6-m1": ["C04"], "C15-w6-m2": ["C14"], "C20-w6-m1": ["C04"], "C20-w6-m2": ["C03"], "C13-w7-m2": ["C03"], "C15-w7-m2": ["C14"], "C18-w7-m1": ["C11"], "C04-w8-m2": ["C19"], "C05-w8-m1": ["C06"], "C13-w8-m2": ["C17"], "C11-w8-m2": ["C06"], "C20-w9-m2": ["C04"], "C13-w9-m2": ["C03"]}
 def props_for(sid, meta):
     fr = meta.get("final_run") or {}
     cmd = fr.get("cmd", "")
